@@ -788,7 +788,8 @@ def proxy_keys(ctx: Ctx) -> None:
         ok = len(z.args) == 2 and isinstance(z.args[0], ast.Name) and z.args[0].id == AN and unparse(z.args[1]) == g.vararg and any(k.arg == "strict" and isinstance(k.value, ast.Constant) and k.value.value is True for k in z.keywords)
         # key = the name, value = the array (not swapped)
         tg = d.generators[0].target
-        ok = ok and isinstance(tg, ast.Tuple) and len(tg.elts) == 2 and unparse(d.key) == unparse(tg.elts[0]) and unparse(d.value) == unparse(tg.elts[1])
+        # (the value is the array, or the proxy built from it)
+        ok = ok and isinstance(tg, ast.Tuple) and len(tg.elts) == 2 and all(isinstance(e_, ast.Name) for e_ in tg.elts) and unparse(d.key) == unparse(tg.elts[0]) and mentions_name(d.value, tg.elts[1].id) and not mentions_name(d.value, tg.elts[0].id)
     ctx.ob(g, am[0] if am else None, ok, "primitive: names are zipped strictly with the operand arrays, in order", sel="names:primitive:zip")
     po = repo.calls_to(g, f"{A.PTYPES}.PrimitiveOperation")
     san = kwarg(po[0], "source_array_names") if po else None
@@ -798,6 +799,7 @@ def proxy_keys(ctx: Ctx) -> None:
     R = bs[0].args[4] if bs and len(bs[0].args) >= 6 else None
     W = bs[0].args[5] if bs and len(bs[0].args) >= 6 else None
     wp = [n for n in g.own_nodes() if isinstance(n, ast.Assign) and isinstance(n.targets[0], ast.Subscript) and isinstance(n.targets[0].value, ast.Name) and isinstance(W, ast.Name) and n.targets[0].value.id == W.id]
+    ctx.need(wp, "primitive: the stores that fill the write-proxy dict are not in general_blockwise itself")
     ok = bool(wp)
     for w_ in wp:
         sl = w_.targets[0].slice
@@ -811,7 +813,10 @@ def proxy_keys(ctx: Ctx) -> None:
         rv, _ = _val(fl, cfg, R, cfg.node_of(bs[0]))
         # read proxies: {name: proxy(array)} over the items of the name→array map built above
         ok = isinstance(rv, ast.DictComp) and isinstance(rv.generators[0].iter, ast.Call) and isinstance(rv.generators[0].iter.func, ast.Attribute) and rv.generators[0].iter.func.attr == "items"
-        if ok:
+        if any(rv is d for d in am):
+            # built directly over the strict zip of names and arrays (judged above)
+            ok = True
+        elif ok:
             mv, _ = _val(fl, cfg, rv.generators[0].iter.func.value, cfg.node_of(bs[0]))
             ok = any(mv is d for d in am)
             tg = rv.generators[0].target
